@@ -19,7 +19,7 @@ mkdir -p /verif/seeded/$SID && cp $PATCH /verif/seeded/$SID/patch.diff && cp $DE
 git -C /repo apply $PATCH || { echo "patch does not apply to /repo"; exit 2; }
 cp /verif/evidence/$PROP.json /tmp/.ev.$PROP.$$ 2>/dev/null
 OUT=$(/verif/check $PROP quick 2>&1); CODE=$?
-git -C /repo checkout -- .
+git -C /repo apply -R $PATCH
 [ -f /tmp/.ev.$PROP.$$ ] && mv /tmp/.ev.$PROP.$$ /verif/evidence/$PROP.json
 rm -rf /verif/replays/$PROP
 echo "check $PROP with seed applied: exit=$CODE"; echo "$OUT" | grep -c "^VIOLATION" ; echo "$OUT" | grep "^VIOLATION" | head -3
